@@ -111,3 +111,15 @@ def stubborn(x):
                 time.sleep(0.01)
         except Exception:
             pass
+
+
+def ret(x=None):
+    return x
+
+
+def blob(n):
+    return b'x' * n
+
+
+def raise_value_error(*a):
+    raise ValueError(*a)
